@@ -249,6 +249,8 @@ pub struct MapCfg {
     pub bucket_bound: Option<usize>,
     /// build the map with the alternative hasher instance (environment's second plan)
     pub alt_hasher: bool,
+    /// offer per-key operations only for ids below this (lookups still cover the whole universe)
+    pub ops_universe: Option<u8>,
 }
 impl MapCfg {
     pub fn new(plan: Plan, universe: u8) -> Self {
@@ -263,6 +265,7 @@ impl MapCfg {
             check_alloc_size: true,
             bucket_bound: None,
             alt_hasher: false,
+            ops_universe: None,
         }
     }
     /// class of each key id: index of its hash among the plan's distinct hashes
@@ -517,7 +520,7 @@ impl<K: KeyT, V: ValT> MapHarness<K, V> {
     pub fn key_choices(&self, sut: &MapSut<K, V>) -> Vec<u8> {
         let mut v = Vec::new();
         let mut seen_class = [false; 256];
-        for id in 0..self.cfg.universe {
+        for id in 0..self.cfg.ops_universe.unwrap_or(self.cfg.universe).min(self.cfg.universe) {
             if sut.mpos(id).is_some() {
                 v.push(id);
             } else if self.cfg.reduce {
